@@ -52,7 +52,9 @@ def bnodes():
 # ---------------------------------------------------------------- strings
 _NASTY = ['"', "'", "\\", "\n", "\r", "\t", " ", "\x00", "\x01", "\x0b", "\x0c", "\x1f", "\x7f", "\x85", "\u2028", "\u2029",
           "\ufeff", "\U0001F600", "\U00010000", "\u00e9", "e\u0301", "\u0430", "<", ">", "&", "{", "}", "#", "@", "^", "a", "b", "z", "0", "1",
-          '"""', "'''", "\\\"", "\\\\", "]]>", "\ufffd", "\ufffe", "\uffff", "_", ":", ".", ",", ";"]
+          '"""', "'''", "\\\"", "\\\\", "]]>", "\ufffd", "\ufffe", "\uffff", "_", ":", ".", ",", ";",
+          # what looks like an escape once it follows a backslash of the text itself
+          "x41", "u0041", "U0001F600", "n", "t", "N"]
 
 
 def strings(max_size=8, xml_safe=False, extra=()):
